@@ -14,7 +14,7 @@ rsync -a --exclude '*.vo' --exclude '*.glob' --exclude '*.aux' --exclude '.*.aux
 cp /verif/coq/theories/*/*.vo "$base/coq/theories/" 2>/dev/null; rsync -a --include '*/' --include '*.vo' --include '*.glob' --exclude '*' /verif/coq/theories/ "$base/coq/theories/"
 rm -f "$base"/coq/theories/*.vo
 mkdir -p "$base/work"
-( cd /verif && VERIF_REPO="$base/repo" VERIF_COQ="$base/coq" VERIF_WORK="$base/work" VERIF_EVIDENCE_DIR="$base/evidence" VERIF_NO_CLEAN=1 VERIF_NO_COQCHK=1 ./check "$prop" --tier "$tier" 2>&1 | tail -6 )
+( cd /verif && VERIF_REPO="$base/repo" VERIF_COQ="$base/coq" VERIF_WORK="$base/work" VERIF_EVIDENCE_DIR="$base/evidence" VERIF_NO_CLEAN=1 VERIF_NO_COQCHK=1 ./check "$prop" --tier "$tier" 2>&1 | tail -${MC_TAIL:-6} )
 rc=$?
 git -C /repo worktree remove --force "$base/repo"
 rm -rf "$base"
